@@ -1,8 +1,10 @@
 /-
 C20 — not-a-knot cubic spline (specification of SciPy's interp1d(cubic) and InterpolatedUnivariateSpline(k=3)):
 defining equations NakEqs on the moments, the cubic piece, node reproduction of the evaluated model, linearity of
-the equations, cubics satisfy them.  Uniqueness of the solution (⇒ linearity of the map data ↦ spline, reproduction
-of cubics by the solver) is NOT proved here; the driver reports per case that the solution it evaluates satisfies NakEqs.
+the equations, cubics satisfy them.  Uniqueness of the solution (strict diagonal dominance of the system reduced by the two not-a-knot conditions)
+⇒ the whole call is linear in the data and reproduces cubics.  The model accepts the result of its elimination
+only when it satisfies NakEqs (decidable), so these theorems hold for every value it returns; that the elimination
+always succeeds on valid input is measured by the correspondence, not proved.
 -/
 import Midgard.Model.Numeric
 import Midgard.Proofs.C20Lagrange
@@ -10,6 +12,9 @@ import Mathlib.Tactic.Ring
 import Mathlib.Tactic.FieldSimp
 import Mathlib.Tactic.LinearCombination
 import Mathlib.Tactic.Linarith
+import Mathlib.Data.Finset.Max
+import Mathlib.Algebra.Order.Ring.Abs
+import Mathlib.Order.Interval.Finset.Nat
 
 namespace Midgard.Proofs.C20
 open Midgard.Numeric
@@ -82,7 +87,7 @@ theorem pieceEval_cubic (x0 x1 c0 c1 c2 c3 t : ℚ) (h : x1 ≠ x0) :
 /-- the spline evaluated by the model reproduces the data at the nodes, whatever the moments -/
 theorem nakAt_node (xs ys ms : List ℚ) (k : ℕ) (hp : xs.Pairwise (· < ·)) (hn : 2 ≤ xs.length) (hk : k < xs.length) :
     nakAt xs ys ms (xs.getD k 0) = ys.getD k 0 := by
-  unfold nakAt
+  simp only [nakAt]
   rw [searchLeft_node xs k hp hk]
   rcases Nat.eq_zero_or_pos k with rfl | hk0
   · have : max 1 (min 0 (xs.length - 1)) = 1 := by omega
@@ -97,13 +102,188 @@ end Midgard.Proofs.C20
 namespace Midgard.Proofs.C20
 open Midgard.Numeric
 
-theorem nakSpline_ok_form (xs : List ℚ) (rows : List (List ℚ)) (dim : ℕ) (xnew : List ℚ) (c : Bool)
-    (out : List (List ℚ)) (h : nakSpline xs rows dim xnew = .ok (c, out)) :
+/-- strict diagonal dominance, one row with two entries -/
+theorem dom2 (u v A B : ℚ) (h : u * A + v * B = 0) (hA : 0 < A) (hB : |B| < A) (hv : |v| ≤ |u|) : u = 0 := by
+  by_contra hu
+  have hpos : 0 < |u| := abs_pos.mpr hu
+  have e : |u| * A = |v| * |B| := by
+    have : u * A = -(v * B) := by linarith
+    calc |u| * A = |u * A| := by rw [abs_mul, abs_of_pos hA]
+      _ = |v * B| := by rw [this, abs_neg]
+      _ = |v| * |B| := abs_mul v B
+  have h1 : |v| * |B| ≤ |u| * |B| := mul_le_mul_of_nonneg_right hv (abs_nonneg B)
+  have h2 : |u| * |B| < |u| * A := mul_lt_mul_of_pos_left hB hpos
+  linarith
+
+/-- strict diagonal dominance, an interior row -/
+theorem dom3 (u v w a b : ℚ) (h : a * v + 2 * (a + b) * u + b * w = 0) (ha : 0 < a) (hb : 0 < b)
+    (hv : |v| ≤ |u|) (hw : |w| ≤ |u|) : u = 0 := by
+  by_contra hu
+  have hpos : 0 < |u| := abs_pos.mpr hu
+  have e : 2 * (a + b) * |u| = |a * v + b * w| := by
+    have : 2 * (a + b) * u = -(a * v + b * w) := by linarith
+    calc 2 * (a + b) * |u| = |2 * (a + b) * u| := by
+          rw [abs_mul, abs_of_pos (by linarith : (0:ℚ) < 2 * (a + b))]
+      _ = |a * v + b * w| := by rw [this, abs_neg]
+  have h1 : |a * v + b * w| ≤ a * |v| + b * |w| := by
+    calc |a * v + b * w| ≤ |a * v| + |b * w| := abs_add_le _ _
+      _ = a * |v| + b * |w| := by rw [abs_mul, abs_mul, abs_of_pos ha, abs_of_pos hb]
+  have h2 : a * |v| ≤ a * |u| := mul_le_mul_of_nonneg_left hv (le_of_lt ha)
+  have h3 : b * |w| ≤ b * |u| := mul_le_mul_of_nonneg_left hw (le_of_lt hb)
+  nlinarith
+
+/-- the homogeneous not-a-knot equations have only the zero solution -/
+theorem nakEqs_zero (k : ℕ) (x m : ℕ → ℚ) (hx : ∀ i, i + 1 < k + 4 → x i < x (i + 1))
+    (h : NakEqs (k + 4) x (fun _ => 0) m) : ∀ i, i < k + 4 → m i = 0 := by
+  obtain ⟨hE, hF, hG⟩ := h
+  have e2 : k + 4 - 2 = k + 2 := by omega
+  have e3 : k + 4 - 3 = k + 1 := by omega
+  have e1 : k + 4 - 1 = k + 3 := by omega
+  rw [e1, e2, e3] at hG
+  -- interior rows
+  have E : ∀ i, 1 ≤ i → i ≤ k + 2 →
+      (x i - x (i - 1)) * m (i - 1) + 2 * ((x i - x (i - 1)) + (x (i + 1) - x i)) * m i + (x (i + 1) - x i) * m (i + 1) = 0 := by
+    intro i h1 h2
+    have := hE i (by omega) h1 (by omega)
+    simp only [sub_self, zero_div, mul_zero] at this
+    linarith
+  have hpos : ∀ i, i ≤ k + 2 → 0 < x (i + 1) - x i := fun i hi => sub_pos.mpr (hx i (by omega))
+  -- reduced first and last rows
+  have R1 : m 1 * ((x 1 - x 0) + 2 * (x 2 - x 1)) + m 2 * ((x 2 - x 1) - (x 1 - x 0)) = 0 := by
+    have h0 := hpos 0 (by omega); have h1 := hpos 1 (by omega)
+    have e := E 1 (le_refl 1) (by omega)
+    simp only [Nat.sub_self] at e
+    have : ((x 1 - x 0) + (x 2 - x 1)) * (m 1 * ((x 1 - x 0) + 2 * (x 2 - x 1)) + m 2 * ((x 2 - x 1) - (x 1 - x 0))) = 0 := by
+      linear_combination (x 2 - x 1) * e + (x 1 - x 0) * hF
+    rcases mul_eq_zero.mp this with h' | h'
+    · linarith
+    · exact h'
+  have RL : m (k + 2) * ((x (k + 3) - x (k + 2)) + 2 * (x (k + 2) - x (k + 1)))
+      + m (k + 1) * ((x (k + 2) - x (k + 1)) - (x (k + 3) - x (k + 2))) = 0 := by
+    have h0 := hpos (k + 1) (by omega); have h1 := hpos (k + 2) (by omega)
+    have e := E (k + 2) (by omega) (le_refl _)
+    have e' : k + 2 - 1 = k + 1 := by omega
+    have e'' : k + 2 + 1 = k + 3 := rfl
+    rw [e', e''] at e
+    have : ((x (k + 2) - x (k + 1)) + (x (k + 3) - x (k + 2))) * (m (k + 2) * ((x (k + 3) - x (k + 2)) + 2 * (x (k + 2) - x (k + 1)))
+      + m (k + 1) * ((x (k + 2) - x (k + 1)) - (x (k + 3) - x (k + 2)))) = 0 := by
+      linear_combination (x (k + 2) - x (k + 1)) * e + (x (k + 3) - x (k + 2)) * hG
+    rcases mul_eq_zero.mp this with h' | h'
+    · linarith
+    · exact h'
+  -- the interior moments vanish: take one of maximal modulus
+  obtain ⟨p, hp, hmax⟩ := Finset.exists_max_image (Finset.Icc 1 (k + 2)) (fun i => |m i|) ⟨1, by simp⟩
+  have hp' := Finset.mem_Icc.mp hp
+  have hle : ∀ i, 1 ≤ i → i ≤ k + 2 → |m i| ≤ |m p| := fun i h1 h2 => hmax i (Finset.mem_Icc.mpr ⟨h1, h2⟩)
+  have hp0 : m p = 0 := by
+    rcases Nat.eq_or_lt_of_le hp'.1 with h1 | h1
+    · subst h1
+      have h0 := hpos 0 (by omega); have h1 := hpos 1 (by omega)
+      exact dom2 (m 1) (m 2) _ _ R1 (by linarith) (by rw [abs_lt]; constructor <;> linarith) (hle 2 (by omega) (by omega))
+    · rcases Nat.eq_or_lt_of_le hp'.2 with h2 | h2
+      · subst h2
+        have h0 := hpos (k + 1) (by omega); have h1' := hpos (k + 2) (by omega)
+        exact dom2 (m (k + 2)) (m (k + 1)) _ _ RL (by linarith) (by rw [abs_lt]; constructor <;> linarith)
+          (hle (k + 1) (by omega) (by omega))
+      · have e := E p hp'.1 hp'.2
+        have ha := hpos (p - 1) (by omega)
+        have hb := hpos p (by omega)
+        have ep : p - 1 + 1 = p := by omega
+        rw [ep] at ha
+        exact dom3 (m p) (m (p - 1)) (m (p + 1)) _ _ (by linarith) ha hb (hle (p - 1) (by omega) (by omega))
+          (hle (p + 1) (by omega) (by omega))
+  have hin : ∀ i, 1 ≤ i → i ≤ k + 2 → m i = 0 := by
+    intro i h1 h2
+    have := hle i h1 h2
+    rw [hp0, abs_zero] at this
+    exact abs_eq_zero.mp (le_antisymm this (abs_nonneg _))
+  have m1 := hin 1 (le_refl _) (by omega)
+  have m2 := hin 2 (by omega) (by omega)
+  have mk1 := hin (k + 1) (by omega) (by omega)
+  have mk2 := hin (k + 2) (by omega) (le_refl _)
+  have m0 : m 0 = 0 := by
+    have h1 := hpos 1 (by omega)
+    rw [m1, m2] at hF
+    have : m 0 * (x 2 - x 1) = 0 := by linarith
+    rcases mul_eq_zero.mp this with h' | h'
+    · exact h'
+    · linarith
+  have mk3 : m (k + 3) = 0 := by
+    have h1 := hpos (k + 1) (by omega)
+    rw [mk1, mk2] at hG
+    have : m (k + 3) * (x (k + 2) - x (k + 1)) = 0 := by linarith
+    rcases mul_eq_zero.mp this with h' | h'
+    · exact h'
+    · linarith
+  intro i hi
+  rcases Nat.eq_zero_or_pos i with rfl | h1
+  · exact m0
+  · rcases Nat.lt_or_ge i (k + 3) with h2 | h2
+    · exact hin i h1 (by omega)
+    · have : i = k + 3 := by omega
+      subst this; exact mk3
+
+/-- **uniqueness** of the not-a-knot spline: two solutions of the defining equations for the same data agree -/
+theorem nakEqs_unique (n : ℕ) (x y m m' : ℕ → ℚ) (hn : 4 ≤ n) (hx : ∀ i, i + 1 < n → x i < x (i + 1))
+    (h : NakEqs n x y m) (h' : NakEqs n x y m') : ∀ i, i < n → m i = m' i := by
+  obtain ⟨k, rfl⟩ : ∃ k, n = k + 4 := ⟨n - 4, by omega⟩
+  have hd := nakEqs_linear (k + 4) x y y m m' 1 (-1) h h'
+  have hz : NakEqs (k + 4) x (fun _ => 0) (fun i => 1 * m i + -1 * m' i) := by
+    obtain ⟨a, b, c⟩ := hd
+    refine ⟨?_, b, c⟩
+    intro i hi h1 h2
+    have := a i hi h1 h2
+    simp only [sub_self, zero_div, mul_zero]
+    have e : (1 : ℚ) * y (i + 1) + -1 * y (i + 1) - (1 * y i + -1 * y i) = 0 := by ring
+    have e' : (1 : ℚ) * y i + -1 * y i - (1 * y (i - 1) + -1 * y (i - 1)) = 0 := by ring
+    rw [e, e'] at this
+    simpa using this
+  intro i hi
+  have := nakEqs_zero k x _ hx hz i hi
+  linarith
+
+end Midgard.Proofs.C20
+
+namespace Midgard.Proofs.C20
+open Midgard.Numeric
+
+/-- the equations only look at indices below `n` -/
+theorem nakEqs_congr (n : ℕ) (x y y' m m' : ℕ → ℚ) (hn : 4 ≤ n) (hy : ∀ i, i < n → y i = y' i)
+    (hm : ∀ i, i < n → m i = m' i) (h : NakEqs n x y m) : NakEqs n x y' m' := by
+  obtain ⟨a, b, c⟩ := h
+  refine ⟨?_, ?_, ?_⟩
+  · intro i hi h1 h2
+    rw [← hy (i + 1) h2, ← hy i hi, ← hy (i - 1) (by omega), ← hm (i + 1) h2, ← hm i hi, ← hm (i - 1) (by omega)]
+    exact a i hi h1 h2
+  · rw [← hm 0 (by omega), ← hm 1 (by omega), ← hm 2 (by omega)]; exact b
+  · rw [← hm (n - 1) (by omega), ← hm (n - 2) (by omega), ← hm (n - 3) (by omega)]; exact c
+
+theorem nakMoments_spec (sx col ms : List ℚ) (h : nakMoments sx col = some ms) :
+    NakEqs sx.length (fun i => sx.getD i 0) (fun i => col.getD i 0) (fun i => ms.getD i 0) := by
+  unfold nakMoments at h
+  split at h
+  · exact absurd h (by simp)
+  · split at h
+    · rename_i hq
+      injection h with h
+      rw [← h]; exact hq
+    · exact absurd h (by simp)
+
+theorem getD_map_at' {α} (l : List ℚ) (f : ℚ → α) (d : α) (j : ℕ) (hj : j < l.length) :
+    (l.map f).getD j d = f (l.getD j 0) := by
+  simp [List.getD_eq_getElem?_getD, hj]
+
+theorem getD_map_range' (dim c : ℕ) (hc : c < dim) (G : ℕ → ℚ) : ((List.range dim).map G).getD c 0 = G c := by
+  simp [List.getD_eq_getElem?_getD, hc]
+
+theorem nakSpline_ok_form (xs : List ℚ) (rows : List (List ℚ)) (dim : ℕ) (xnew : List ℚ)
+    (out : List (List ℚ)) (h : nakSpline xs rows dim xnew = .ok out) :
     rows.length = xs.length ∧ 4 ≤ xs.length ∧ strictInc ((sortedPairs xs rows false).map (·.1)) = true ∧
-    out = xnew.map (fun x => (((List.range dim).map (fun c => ((sortedPairs xs rows false).map (·.2)).map (·.getD c 0))).map
-      (fun col => (col, (gaussSolve ((sortedPairs xs rows false).map (·.1)).length
-        (nakSystem ((sortedPairs xs rows false).map (·.1)) col)).getD []))).map
-      (fun (col, ms) => nakAt ((sortedPairs xs rows false).map (·.1)) col ms x)) := by
+    (∀ c, c < dim → (nakMoments ((sortedPairs xs rows false).map (·.1))
+        (((sortedPairs xs rows false).map (·.2)).map (·.getD c 0))).isSome = true) ∧
+    out = xnew.map (fun x => ((List.range dim).map (fun c => ((sortedPairs xs rows false).map (·.2)).map (·.getD c 0))).map
+      (fun col => nakAt ((sortedPairs xs rows false).map (·.1)) col
+        ((nakMoments ((sortedPairs xs rows false).map (·.1)) col).getD []) x)) := by
   simp only [nakSpline, sortedPairs, Bool.false_eq_true, ↓reduceIte] at h ⊢
   split at h
   · exact absurd h (by simp)
@@ -118,25 +298,41 @@ theorem nakSpline_ok_form (xs : List ℚ) (rows : List (List ℚ)) (dim : ℕ) (
   · exact absurd h (by simp)
   split at h
   · exact absurd h (by simp)
-  refine ⟨by simpa using h1, by omega, by simpa using h3, ?_⟩
-  injection h with h
-  injection h with _ h
-  exact h.symm
+  split at h
+  · exact absurd h (by simp)
+  rename_i h6
+  refine ⟨by simpa using h1, by omega, by simpa using h3, ?_, ?_⟩
+  · intro c hc
+    simp only [List.any_eq_true, not_exists, not_and, List.mem_map, List.mem_range] at h6
+    have := h6 _ ⟨c, hc, rfl⟩
+    simpa [Option.isNone_iff_eq_none, Option.isSome_iff_ne_none] using this
+  · injection h with h
+    exact h.symm
 
-/-- node reproduction, whole call (whatever the solver returned for the moments) -/
-theorem nakSpline_nodes (xs : List ℚ) (rows : List (List ℚ)) (dim : ℕ) (xnew : List ℚ) (cert : Bool)
-    (out : List (List ℚ)) (h : nakSpline xs rows dim xnew = .ok (cert, out))
+/-- entry `(j, c)` of a successful call: the cubic pieces of moments that satisfy the defining equations for the
+sorted samples of component `c` -/
+theorem nakSpline_entry (xs : List ℚ) (rows : List (List ℚ)) (dim : ℕ) (xnew : List ℚ)
+    (out : List (List ℚ)) (h : nakSpline xs rows dim xnew = .ok out) (j c : ℕ) (hj : j < xnew.length) (hc : c < dim) :
+    ∃ ms, NakEqs ((sortedPairs xs rows false).map (·.1)).length (fun i => ((sortedPairs xs rows false).map (·.1)).getD i 0)
+        (fun i => (((sortedPairs xs rows false).map (·.2)).map (·.getD c 0)).getD i 0) (fun i => ms.getD i 0) ∧
+      (out.getD j []).getD c 0 = nakAt ((sortedPairs xs rows false).map (·.1))
+        (((sortedPairs xs rows false).map (·.2)).map (·.getD c 0)) ms (xnew.getD j 0) := by
+  obtain ⟨hl, h4, hinc, hsome, rfl⟩ := nakSpline_ok_form _ _ _ _ _ h
+  obtain ⟨ms, hms⟩ := Option.isSome_iff_exists.mp (hsome c hc)
+  refine ⟨ms, nakMoments_spec _ _ _ hms, ?_⟩
+  rw [getD_map_at' _ _ _ _ hj, List.map_map, getD_map_range' _ _ hc]
+  simp only [Function.comp, hms, Option.getD_some]
+
+/-- node reproduction, whole call -/
+theorem nakSpline_nodes (xs : List ℚ) (rows : List (List ℚ)) (dim : ℕ) (xnew : List ℚ)
+    (out : List (List ℚ)) (h : nakSpline xs rows dim xnew = .ok out)
     (i j c : ℕ) (hi : i < xs.length) (hj : j < xnew.length) (hc : c < dim) (hx : xnew.getD j 0 = xs.getD i 0) :
     (out.getD j []).getD c 0 = (rows.getD i []).getD c 0 := by
-  obtain ⟨hl, h4, hinc, rfl⟩ := nakSpline_ok_form _ _ _ _ _ _ h
+  obtain ⟨ms, _, he⟩ := nakSpline_entry _ _ _ _ _ h j c hj hc
+  obtain ⟨hl, h4, hinc, _, _⟩ := nakSpline_ok_form _ _ _ _ _ h
   obtain ⟨k, hk, hk1, hk2⟩ := sortedPairs_index xs rows false hl i hi
   have hlen := sortedPairs_length xs rows false hl
-  simp only [List.getD_eq_getElem?_getD, List.getElem?_map, List.getElem?_eq_getElem hj, Option.map_some,
-    Option.getD_some, List.map_map, List.getElem?_range hc, Function.comp]
-  rw [← List.getD_eq_getElem?_getD, ← List.getD_eq_getElem?_getD] at *
-  have hxj : xnew[j] = xs.getD i 0 := by
-    rw [← hx, List.getD_eq_getElem?_getD, List.getElem?_eq_getElem hj, Option.getD_some]
-  rw [hxj, ← hk1, nakAt_node _ _ _ k (strictInc_pairwise _ hinc) (by simp [hlen]; omega) (by simpa using hk), ← hk2]
+  rw [he, hx, ← hk1, nakAt_node _ _ _ k (strictInc_pairwise _ hinc) (by simp [hlen]; omega) (by simpa using hk), ← hk2]
   simp [List.getD_eq_getElem?_getD, hk]
 
 theorem nakSpline_perm (xs xs' : List ℚ) (rows rows' : List (List ℚ)) (dim : ℕ)
@@ -150,5 +346,99 @@ theorem nakSpline_perm (xs xs' : List ℚ) (rows rows' : List (List ℚ)) (dim :
     omega
   have hsort := sortBy_eq_of_perm _ _ hperm hdist
   simp only [nakSpline, hl, hl', hlen, hsort]
+
+/-- strictly increasing nodes, as the hypothesis of `nakEqs_unique` -/
+theorem getD_strict (sx : List ℚ) (hp : sx.Pairwise (· < ·)) (i : ℕ) (hi : i + 1 < sx.length) :
+    sx.getD i 0 < sx.getD (i + 1) 0 := getD_mem_lt sx hp i (i + 1) (by omega) hi
+
+/-- the interval `nakAt` evaluates on has both ends among the nodes -/
+theorem nakAt_idx (sx : List ℚ) (x : ℚ) (hn : 2 ≤ sx.length) :
+    1 ≤ max 1 (min (searchLeft sx x) (sx.length - 1)) ∧ max 1 (min (searchLeft sx x) (sx.length - 1)) < sx.length := by
+  omega
+
+/-- **reproduction of cubics**, whole call -/
+theorem nakSpline_cubic (xs : List ℚ) (rows : List (List ℚ)) (dim : ℕ) (xnew : List ℚ)
+    (out : List (List ℚ)) (h : nakSpline xs rows dim xnew = .ok out) (c : ℕ) (hc : c < dim) (c0 c1 c2 c3 : ℚ)
+    (hdata : ∀ i, i < xs.length → (rows.getD i []).getD c 0 = cubicAt c0 c1 c2 c3 (xs.getD i 0))
+    (j : ℕ) (hj : j < xnew.length) :
+    (out.getD j []).getD c 0 = cubicAt c0 c1 c2 c3 (xnew.getD j 0) := by
+  obtain ⟨ms, hms, he⟩ := nakSpline_entry _ _ _ _ _ h j c hj hc
+  obtain ⟨hl, h4, hinc, _, _⟩ := nakSpline_ok_form _ _ _ _ _ h
+  have hlen := sortedPairs_length xs rows false hl
+  have hp := strictInc_pairwise _ hinc
+  set sx := (sortedPairs xs rows false).map (·.1) with hsx
+  set col := ((sortedPairs xs rows false).map (·.2)).map (·.getD c 0) with hcol
+  have hsxl : sx.length = xs.length := by simp [hsx, hlen]
+  -- the sorted column is the cubic at the sorted nodes
+  have hcoldata : ∀ k, k < sx.length → col.getD k 0 = cubicAt c0 c1 c2 c3 (sx.getD k 0) := by
+    intro k hk
+    have := sortedPairs_forall xs rows false (fun x r => r.getD c 0 = cubicAt c0 c1 c2 c3 x) hdata hl k (by simpa [hsx] using hk)
+    rw [hcol, getD_map_col]
+    exact this
+  have hstrict := getD_strict sx hp
+  have hcub := nakEqs_cubic sx.length (fun i => sx.getD i 0) c0 c1 c2 c3 (fun i hi => ne_of_gt (hstrict i hi))
+  have hcub' : NakEqs sx.length (fun i => sx.getD i 0) (fun i => col.getD i 0) (fun i => cubicDD c2 c3 (sx.getD i 0)) :=
+    nakEqs_congr _ _ _ _ _ _ (by omega) (fun i hi => (hcoldata i hi).symm) (fun _ _ => rfl) hcub
+  have huniq := nakEqs_unique sx.length _ _ _ _ (by omega) hstrict hms hcub'
+  rw [he]
+  simp only [nakAt]
+  obtain ⟨i1, i2⟩ := nakAt_idx sx (xnew.getD j 0) (by omega)
+  generalize max 1 (min (searchLeft sx (xnew.getD j 0)) (sx.length - 1)) = idx at *
+  have ha := huniq (idx - 1) (by omega)
+  have hb := huniq idx i2
+  rw [ha, hb, hcoldata (idx - 1) (by omega), hcoldata idx i2]
+  have hne : sx.getD idx 0 ≠ sx.getD (idx - 1) 0 := by
+    have := hstrict (idx - 1) (by omega)
+    rw [Nat.sub_add_cancel i1] at this
+    exact ne_of_gt this
+  exact pieceEval_cubic _ _ c0 c1 c2 c3 _ hne
+
+/-- **linear in the data**, whole call -/
+theorem nakSpline_linear (xs : List ℚ) (r₁ r₂ r₃ : List (List ℚ)) (dim : ℕ) (xnew : List ℚ) (a b : ℚ)
+    (o₁ o₂ o₃ : List (List ℚ))
+    (h₁ : nakSpline xs r₁ dim xnew = .ok o₁) (h₂ : nakSpline xs r₂ dim xnew = .ok o₂)
+    (h₃ : nakSpline xs r₃ dim xnew = .ok o₃) (c : ℕ) (hc : c < dim)
+    (hcomb : ∀ i, i < xs.length →
+      (r₃.getD i []).getD c 0 = a * (r₁.getD i []).getD c 0 + b * (r₂.getD i []).getD c 0)
+    (j : ℕ) (hj : j < xnew.length) :
+    (o₃.getD j []).getD c 0 = a * (o₁.getD j []).getD c 0 + b * (o₂.getD j []).getD c 0 := by
+  obtain ⟨m₁, q₁, e₁⟩ := nakSpline_entry _ _ _ _ _ h₁ j c hj hc
+  obtain ⟨m₂, q₂, e₂⟩ := nakSpline_entry _ _ _ _ _ h₂ j c hj hc
+  obtain ⟨m₃, q₃, e₃⟩ := nakSpline_entry _ _ _ _ _ h₃ j c hj hc
+  obtain ⟨l₁, h4, hinc, _, _⟩ := nakSpline_ok_form _ _ _ _ _ h₁
+  obtain ⟨l₂, _, _, _, _⟩ := nakSpline_ok_form _ _ _ _ _ h₂
+  obtain ⟨l₃, _, _, _, _⟩ := nakSpline_ok_form _ _ _ _ _ h₃
+  obtain ⟨Z, hZlen, s₁, s₂, s₃, hZ⟩ := sorted_triples xs r₁ r₂ r₃ false l₁ l₂ l₃
+  rw [e₁, e₂, e₃]
+  rw [s₁] at q₁ hinc ⊢
+  rw [s₂] at q₂ ⊢
+  rw [s₃] at q₃ ⊢
+  simp only [List.map_map, fst_comp_map] at q₁ q₂ q₃ hinc ⊢
+  set sx := Z.map (fun z : ℚ × Triple => z.1) with hsx
+  have hsxl : sx.length = xs.length := by simp [hsx, hZlen]
+  have hp := strictInc_pairwise _ hinc
+  have hstrict := getD_strict sx hp
+  set col₁ := Z.map ((fun x : List ℚ => x.getD c 0) ∘ (fun x : ℚ × List ℚ => x.2) ∘ Prod.map id (fun t : Triple => t.1)) with hc₁
+  set col₂ := Z.map ((fun x : List ℚ => x.getD c 0) ∘ (fun x : ℚ × List ℚ => x.2) ∘ Prod.map id (fun t : Triple => t.2.1)) with hc₂
+  set col₃ := Z.map ((fun x : List ℚ => x.getD c 0) ∘ (fun x : ℚ × List ℚ => x.2) ∘ Prod.map id (fun t : Triple => t.2.2)) with hc₃
+  have hcol : ∀ k, k < sx.length → col₃.getD k 0 = a * col₁.getD k 0 + b * col₂.getD k 0 := by
+    intro k hk
+    have hk' : k < Z.length := by simpa [hsx] using hk
+    obtain ⟨t, ht, g₁, g₂, g₃⟩ := hZ k hk'
+    have hc' := hcomb t ht
+    rw [g₁, g₂, g₃] at hc'
+    simpa [hc₁, hc₂, hc₃, List.getD_eq_getElem?_getD, hk'] using hc'
+  have hlin := nakEqs_linear sx.length (fun i => sx.getD i 0) _ _ _ _ a b q₁ q₂
+  have hlin' : NakEqs sx.length (fun i => sx.getD i 0) (fun i => col₃.getD i 0)
+      (fun i => a * m₁.getD i 0 + b * m₂.getD i 0) :=
+    nakEqs_congr _ _ _ _ _ _ (by omega) (fun i hi => (hcol i hi).symm) (fun _ _ => rfl) hlin
+  have huniq := nakEqs_unique sx.length _ _ _ _ (by omega) hstrict q₃ hlin'
+  simp only [nakAt]
+  obtain ⟨i1, i2⟩ := nakAt_idx sx (xnew.getD j 0) (by omega)
+  generalize max 1 (min (searchLeft sx (xnew.getD j 0)) (sx.length - 1)) = idx at *
+  have ha := huniq (idx - 1) (by omega)
+  have hb := huniq idx i2
+  rw [ha, hb, hcol (idx - 1) (by omega), hcol idx i2]
+  exact pieceEval_linear _ _ _ _ _ _ _ _ _ _ a b _
 
 end Midgard.Proofs.C20
